@@ -156,7 +156,7 @@ fn parse_spec_dom(lines: &[String]) -> Result<Vec<SNode>, String> {
 }
 
 /// what a reader that knows the reflection database makes of (serialized name, wire value) on `class`
-fn raise(class: &str, pname: &str, w: &Wire) -> Result<(String, Variant), String> {
+fn raise(class: &str, pname: &str, w: &Wire, keep_empty_tags: bool) -> Result<(String, Variant), String> {
     let db = rbx_reflection_database::get();
     let d = match rbx_binary::verif::find_property_descriptors(db, class.into(), pname.into()) {
         None => {
@@ -179,6 +179,7 @@ fn raise(class: &str, pname: &str, w: &Wire) -> Result<(String, Variant), String
         (Wire::Str(b), Some(VariantType::Content)) => Variant::Content(Content::from_uri(utf8(b.clone())?)),
         // blobs: opaque at this level; one that its own codec rejects stays a byte string
         // Tags: the NUL-separated pieces, empty ones kept (Tags::decode drops them: recorded finding of C17, not a matter of the file format)
+        (Wire::Str(b), Some(VariantType::Tags)) if !keep_empty_tags => Tags::decode(b).map(Variant::Tags).unwrap_or_else(|_| Variant::BinaryString(b.clone().into())),
         (Wire::Str(b), Some(VariantType::Tags)) => match String::from_utf8(b.clone()) {
             Ok(st) => {
                 let mut t = Tags::new();
@@ -202,12 +203,12 @@ fn raise(class: &str, pname: &str, w: &Wire) -> Result<(String, Variant), String
 }
 
 /// typed forest of a spec DOM; Refs inside values are synthetic refs of the spec's labels
-fn raise_dom(nodes: &[SNode]) -> Result<Forest, String> {
+fn raise_dom(nodes: &[SNode], keep_empty_tags: bool) -> Result<Forest, String> {
     let mut f = Forest::default();
     for n in nodes {
         let mut props: Vec<(String, Variant)> = Vec::new();
         for (k, w) in &n.props {
-            let (k2, v2) = raise(&n.class, k, w).map_err(|e| format!("{}.{k}: {e}", n.class))?;
+            let (k2, v2) = raise(&n.class, k, w, keep_empty_tags).map_err(|e| format!("{}.{k}: {e}", n.class))?;
             if let Some(p) = props.iter_mut().find(|(q, _)| *q == k2) {
                 p.1 = v2;
             } else {
@@ -219,9 +220,9 @@ fn raise_dom(nodes: &[SNode]) -> Result<Forest, String> {
     Ok(f)
 }
 
-fn dom_of_spec_lines(lines: &[String]) -> Result<WeakDom, String> {
+fn dom_of_spec_lines(lines: &[String], keep_empty_tags: bool) -> Result<WeakDom, String> {
     let nodes = parse_spec_dom(lines)?;
-    let f = raise_dom(&nodes)?;
+    let f = raise_dom(&nodes, keep_empty_tags)?;
     let mut ctx = RefCtx::new();
     Ok(forest::build_dom(&f, &mut ctx))
 }
@@ -362,7 +363,7 @@ fn judge_c03(id: &str, lines: &[String], model: &[String], out: &mut Vec<String>
                 let k = format!("spec-rejects-{}", err_name(c));
                 out.push(format!("{id} C03 {k} comp={comp} the document decoder (amended reading) rejects the written file"));
             }
-            SpecDom::Ok(body) => match dom_of_spec_lines(body) {
+            SpecDom::Ok(body) => match dom_of_spec_lines(body, true) {
                 Err(e) => out.push(format!("{id} C03 untypable comp={comp} the decoded values cannot be typed by the database: {}", cut(&e))),
                 Ok(dom) => {
                     let fs = binoracle::compare_roundtrip(&f, &f.roots, &dom);
@@ -393,7 +394,7 @@ fn judge_c03(id: &str, lines: &[String], model: &[String], out: &mut Vec<String>
                         let k = if c == "5a" { "doc-sharedstring-index-endianness".to_string() } else { format!("doc-literal-rejects-{}", err_name(c)) };
                         out.push(format!("{id} C03 {k} comp={comp} read literally the document rejects the written file ({}); the amended reading accepts it", err_name(c)));
                     }
-                    SpecDom::Ok(body) => match dom_of_spec_lines(body) {
+                    SpecDom::Ok(body) => match dom_of_spec_lines(body, true) {
                         Err(e) => out.push(format!("{id} C03 doc-untypable comp={comp} literal reading: {}", cut(&e))),
                         Ok(dom) => {
                             let mut seen2 = HashSet::new();
@@ -510,7 +511,7 @@ fn judge_c04(id: &str, lines: &[String], model: &[String], out: &mut Vec<String>
     let exp = match dpos {
         Some(p) if model[p] == "dom OK" => {
             let body: Vec<String> = model[p + 1..].iter().take_while(|l| *l != "enddom").cloned().collect();
-            match dom_of_spec_lines(&body) {
+            match dom_of_spec_lines(&body, false) {
                 Ok(d) => forest::print_dom(&d),
                 Err(e) => {
                     out.push(format!("{id} C04 generator-untypable tags={tagstr} {}", cut(&e)));
